@@ -1051,14 +1051,37 @@ func rulePrimWire(p *Prog, r *Result) {
 						b64, _ := constInt(c.Call.Args[2])
 						// the text handed to ParseInt must be the function's string / []byte argument itself
 						// (the type-switch case value), not a re-rendering of something else
-						onText := derivesFrom(c.Call.Args[0], func(v ssa.Value) bool {
+						isTextCase := func(v ssa.Value) bool {
 							ta, ok := v.(*ssa.TypeAssert)
 							if !ok {
 								return false
 							}
 							ts := types.TypeString(ta.AssertedType, nil)
 							return ts == "string" || ts == "[]byte" || ts == "[]uint8"
-						})
+						}
+						onText := derivesFrom(c.Call.Args[0], isTextCase)
+						if !onText {
+							// the parse may sit in a helper taking the text: every caller in the closure hands it the case value
+							for k, pa := range f.Params {
+								if !derivesFrom(c.Call.Args[0], func(v ssa.Value) bool { return v == ssa.Value(pa) }) {
+									continue
+								}
+								ncall, all := 0, true
+								for _, caller := range fs {
+									allInstrs(caller, func(in2 ssa.Instruction) {
+										if c2, ok := in2.(*ssa.Call); ok && c2.Call.StaticCallee() == f && k < len(c2.Call.Args) {
+											ncall++
+											if !derivesFrom(c2.Call.Args[k], isTextCase) {
+												all = false
+											}
+										}
+									})
+								}
+								if ncall > 0 && all {
+									onText = true
+								}
+							}
+						}
 						if b10 == 10 && b64 == 64 && onText {
 							base10 = true
 						}
